@@ -414,9 +414,9 @@ func verifC05_midframe() {
 		oerr = c.Ping(ctx2)
 		cancel2()
 	}
-	if vIsOpen(c) {
-		// the other call gave up waiting; the writer is still in the middle of its frame and must still hold the frame
-		// lock (a call that failed to get the lock has nothing to release)
+	if vIsOpen(c) && len(done) == 0 && len(t.writes) == t.holdAt-1 {
+		// the other call gave up waiting; the writer is still held in the middle of its frame (its held transport write
+		// has not returned) and must still hold the frame lock: a call that failed to get the lock has nothing to release
 		vAssert(len(c.writeFrameMu.ch) == 1, "C05.midframe.frame-lock-still-held-by-the-writer")
 	}
 	close(t.release)
